@@ -586,7 +586,7 @@ pub const RUST_KW_FIELDS: &[&str] = &[
     "union", "gen",
 ];
 pub const RAW_FORBIDDEN_FIELDS: &[&str] = &["self", "Self", "super", "crate"];
-pub const ORD_NAMES: &[&str] = &["Foo", "Bar", "State", "T1", "Ping", "GetInfo", "X", "LongerTypeName9", "Aa", "Bb", "Cc", "Dd", "Ee"];
+pub const ORD_NAMES: &[&str] = &["Foo", "Bar", "State", "T1", "Ping", "GetInfo", "X", "LongerTypeName9", "Aa", "Bb", "Cc", "Dd", "Ee", "GetID", "ReadIO", "HTTPServer", "A", "ABC"];
 pub const KW_NAMES: &[&str] = &["Type", "Move", "Match", "Fn", "Self", "Box", "Option", "Vec", "String", "Result", "Error", "Struct", "Impl", "Loop", "Mod", "Use", "Async", "Dyn", "Ok", "Some"];
 pub const IFACE_NAMES: &[&str] = &["org.example.test", "a.b", "com.example-x.y9", "io.A.b-c", "org.varlink.x", "xn--lgbbat1ad8j.example.algeria", "a--1.b--1.c--1", "Com.Example.UPPER", "a.0.0"];
 
